@@ -144,7 +144,13 @@ class SvsWorld(World):
                 # the application's own callback fails: that is the application's problem, the sync state must not suffer
                 world.stats['fault.callback_raises'] += 1
                 raise RuntimeError('scripted application error in on_missing_data')
-        self.inst = svs_sync.SvsInst('/' + '/'.join(BASE), '/node/' + SELF, on_missing,
+        # the application names itself by URI or - 'self_form' - by an encoded name, which may spell a length the long way
+        self_id = '/node/' + SELF
+        if scenario.get('self_form') == 'wire':
+            self_id = bytes(node_name(SELF))
+        elif scenario.get('self_form') == 'wire-nm':
+            self_id = bytes(node_name(SELF + '~nm'))
+        self.inst = svs_sync.SvsInst('/' + '/'.join(BASE), self_id, on_missing,
                                      DigestSha256Signer(for_interest=True), pass_all,
                                      sync_interval=scenario.get('sync_interval', 30.0),
                                      suppression_interval=scenario.get('sup_interval', 0.2),
@@ -639,6 +645,8 @@ def generate(rng, seed, tier='quick'):
             last_trigger = t
         ops.append(op)
     extra = {}
+    if rng.random() < 0.1:
+        extra['self_form'] = rng.choice(['wire', 'wire-nm'])
     if rng.random() < 0.12:
         extra['cb_raise'] = sorted(set(rng.randrange(4) for _ in range(rng.randint(1, 2))))
     return {'engine': 'svs', 'property': 'C18', 'seed': seed, **extra,
